@@ -101,6 +101,17 @@ func VerifC09History() {
 	if vf.Param("lens") > 2 {
 		lens = []int{0, 1, 3}
 	}
+	// The history may start from a session whose connection window towards the server is nearly
+	// used up by earlier traffic (a state every long-lived session reaches): the relay's account
+	// and the ledger start from the same symbolic remainder.
+	if vf.Choice("connection-window-nearly-used-up", 2) == 1 {
+		left := vf.Int64("connection-window-left")
+		vf.Assume(left >= 0 && left <= 4)
+		w.cToS.flowMu.Lock()
+		w.cToS.connectionWindowSize = int(left)
+		w.cToS.flowMu.Unlock()
+		l.connGranted = left
+	}
 	for e := 0; e < events; e++ {
 		switch vf.Choice("event", 3) {
 		case 0: // DATA from the client
